@@ -492,6 +492,26 @@ def _calib(kind, site, rel, rel_y, absd):
             f.write(f"{kind} {site} {rel:.4e} {rel_y:.4e} {absd:.4e}\n")
 
 
+def _far_from_start(spec, j, x, y, params, yscale):
+    """data scale, or (linear shapes) the magnitude of the least-squares solution, relative to
+    the start parameters"""
+    fs = spec["funcs"][j]
+    if yscale >= 1e4:
+        return True
+    if not SHAPES[fs["shape"]][3]:
+        return False
+    try:
+        A, f0 = _design(spec, j, x, params)
+        if not np.all(np.isfinite(A)):
+            return False
+        ref = _constrained_ref(fs, A, np.asarray(y, dtype=float) - f0)
+    except Exception:  # noqa: BLE001
+        return False
+    if ref is None:
+        return False
+    return float(np.max(np.abs(ref))) >= 1e4 * max(1.0, float(np.max(np.abs(fs["p0"]))))
+
+
 def check_function(run, spec, j, x, y, params, tag, yscale=1.0):
     """O1, O3, O4 for function j against its round data, given the final
     parameters of the whole DAG."""
@@ -503,10 +523,11 @@ def check_function(run, spec, j, x, y, params, tag, yscale=1.0):
     path = "slsqp-constrained" if fs["constraints"] is not None else ("curve_fit-bounded" if fs["bounds"] is not None else "curve_fit-unbounded")
     if fs["weights"]:
         path += "-weighted"
-    if fs["constraints"] is not None and yscale >= 2e4:
-        # data at least 2e4 times the start parameters (which are of order one): a class of its
-        # own, because the SLSQP path is known to lose the optimum there (known_findings.json)
-        path += "-yscale-ge-2e4"
+    if fs["constraints"] is not None and _far_from_start(spec, j, x, y, params, yscale):
+        # an input class of its own, because the SLSQP path is known to lose the optimum there
+        # (known_findings.json): the data, or the least-squares solution, lie at least 1e4 times
+        # the start parameters (which are of order one) away
+        path += "-far-from-start"
     site = f"{path}/{spec['dag']}"
     ynorm2 = float(np.sum(np.asarray(y) ** 2)) or 1.0
     constrained = fs["constraints"] is not None
@@ -733,6 +754,8 @@ def check_order_independence(run, scen, rnd, x, ys, params):
         _calib("o5", ("slsqp" if fs["constraints"] else "curve_fit") + "/" + scen["dag"], dev, dev, dev)
         if dev > TOL_O5:
             path = "slsqp-constrained" if fs["constraints"] is not None else ("curve_fit-bounded" if fs["bounds"] is not None else "curve_fit-unbounded")
+            if fs["constraints"] is not None and _far_from_start(scen, j, x, ys[j], params, rnd.get("yscale", 1.0)):
+                path += "-far-from-start"  # same input class as in check_function
             run.violate("O5-order-independence", f"{path}/{scen['dag']}", {"func": j, "max_rel_dev_of_fitted_values": dev, "params": params[j], "params_dependency_order": ref_params[j]})
             return
 
